@@ -2,6 +2,10 @@
 // Events are appended to the ghost trace only by these stubs.  Start{c,g,t}: the OS process of task t of group g of
 // command c has been started; Exit{c,g,t}: its task has been joined (the process and its log readers have finished).
 // The coordinates (c, g) are the ghost fields w.cur_c / w.cur_g, assigned by spliced proof statements in process_plan.
+// C15: the cause of an error value.  from_listener(e): e was produced by the optional log listener's connection (connect / handshake /
+// write to the listener socket).  Every other assumed producer of errors in this unit states !from_listener; the listener's own stubs
+// state nothing, so their errors may be of either kind.
+pub uninterp spec fn from_listener(e: MonorailError) -> bool;
 pub mod time {
     use vstd::prelude::*;
     pub struct Instant { pub x: u8 }
@@ -29,8 +33,14 @@ pub mod thread {
     use super::*;
     pub struct JoinHandle<T> { pub t: ::std::marker::PhantomData<T> }
     pub struct ThreadResult<T> { pub t: T }
-    impl<T> ThreadResult<T> { #[verifier::external_body] pub fn unwrap(self) -> T { unimplemented!() } }
-    impl<T> JoinHandle<T> { #[verifier::external_body] pub fn join(self) -> ThreadResult<T> { unimplemented!() } }
-    // R12: `thread::spawn(move || compressor.run())`
-    #[verifier::external_body] pub fn spawn_compressor_run(c: log::Compressor) -> JoinHandle<Result<(), MonorailError>> { unimplemented!() }
+    impl<T> ThreadResult<T> {
+        pub uninterp spec fn val(&self) -> T;
+        #[verifier::external_body] pub fn unwrap(self) -> (r: T) ensures r == self.val() { unimplemented!() } }
+    impl<T> JoinHandle<T> {
+        pub uninterp spec fn will(&self) -> T;                // what the thread's closure returns
+        #[verifier::external_body] pub fn join(self) -> (r: ThreadResult<T>) ensures r.val() == self.will() { unimplemented!() } }
+    // R12: `thread::spawn(move || compressor.run())`.  ASSUMED (Compressor::run, not verified): its errors are archive-file / channel
+    // errors, never the log listener's
+    #[verifier::external_body] pub fn spawn_compressor_run(c: log::Compressor) -> (h: JoinHandle<Result<(), MonorailError>>)
+        ensures h.will() matches Err(e) ==> !from_listener(e) { unimplemented!() }
 }
